@@ -89,6 +89,11 @@ type env struct {
 	// finding memdb-parallel-container-load-shares-field-entries; its witness forces the interleaving)
 	oneScanner bool
 	origPools  []concurrent.Pool
+	// scanHook (round 12): armed for the NEXT leaf query only — runs once, on the goroutine that submits
+	// the query's first data-load stage to the scanner pool, i.e. after the shard-scan stage finished
+	// (every dataFamily.Filter of the query has picked its memory databases and its file snapshot) and
+	// before any FilterResultSet.Load / DataLoader.Load of the query runs.
+	scanHook func()
 }
 
 func newEnv(intervalMs int64) (*env, error) { return newEnvOpt(intervalMs, false) }
@@ -396,6 +401,13 @@ func (e *env) leafQuery(spf int, q qSpec) (aggResult, string, error) {
 		Receivers: []string{recvName}}
 	e.reqSeq++
 	e.lastTSL, e.lastStmt = nil, nil
+	if e.scanHook != nil {
+		pools := e.db.ExecutorPool()
+		orig := pools.Scanner
+		pools.Scanner = &hookPool{Pool: orig, fn: e.scanHook}
+		e.scanHook = nil
+		defer func() { pools.Scanner = orig }()
+	}
 	req := &protoCommonV1.TaskRequest{RequestID: "r" + strconv.Itoa(e.reqSeq), RequestType: protoCommonV1.RequestType_Data,
 		PhysicalPlan: encoding.JSONMarshal(plan), Payload: payload}
 	tctx := flow.NewTaskContextWithTimeout(context.Background(), 20*time.Second)
